@@ -2,7 +2,7 @@
 
 use super::rangegen::{first_difference, read_range, same_content, Content};
 use crate::conv::{pid_of, Pid};
-use crate::core::{Ctx, Report, Tier};
+use crate::core::{Ctx, Report};
 use crate::json::Json;
 use crate::refmodel::notation::{all_well_formed_tokens, expand_list, parse_weighted_tok, Tok};
 use crate::util::{catch, hash_str, par_run, Rng};
